@@ -96,6 +96,17 @@ fn generate_model(rng: &mut Rng) -> (String, Vec<Invocable>) {
     ),
   ));
   inv.push(Invocable { name: "Tmp1".into(), kind: "temporal", locks: dec_locks.clone() });
+  // an evaluation that can fail: 02:30 does not exist in Warsaw on the day daylight saving time begins; on the
+  // pinned tree the subtraction panics for such an input (C15 finding). A failed call must not spoil later calls
+  // (no lock left poisoned): calls with such inputs are part of every call table, their sequential outcome
+  // (value or panic) is the expectation like for every other call.
+  x.push_str(&decision(
+    "Gap1",
+    "",
+    &[("input", "_d")],
+    "string(date and time(d + \"T12:00:00@Europe/Warsaw\") - date and time(d + \"T02:30:00@Europe/Warsaw\"))",
+  ));
+  inv.push(Invocable { name: "Gap1".into(), kind: "failing", locks: dec_locks.clone() });
   // regular expressions
   let rx = *rng.pick(&["^[a-c]+[0-9]*$", "a+b*", "(ab)+", "^.{3,}$", "[0-9]{2}", "b.a"]);
   x.push_str(&decision(
@@ -271,9 +282,14 @@ pub fn run(cfg: &Cfg) -> Report {
     // the table of calls with their sequential results
     let mut calls: Vec<Call> = vec![];
     let n_calls = 40 + rng.below(40) as usize;
-    for _ in 0..n_calls {
-      let invocable = rng.below(invocables.len() as u64) as usize;
-      let input_text = gen_input(&mut rng);
+    let gap1 = invocables.iter().position(|i| i.name == "Gap1");
+    for ci in 0..n_calls {
+      let mut invocable = rng.below(invocables.len() as u64) as usize;
+      let mut input_text = gen_input(&mut rng);
+      if let (true, Some(g)) = (ci % 10 == 3, gap1) {
+        invocable = g;
+        input_text = format!("{{n: 1, s: \"a\", d: \"{}\", p: 1, q: 1}}", rng.pick(&["2020-03-29", "2021-03-28", "2019-03-31"]));
+      }
       let input = match dmntk_feel_evaluator::evaluate_context(&Scope::default(), &input_text) {
         Ok(c) => c,
         Err(_) => continue,
